@@ -37,6 +37,21 @@ Oracles
        DIM leaves no array, subscript errors 9/5 without changing anything, unique value in every element
        (all tuples up to 600 elements, boundary + scattered tuples above) read back through the API and
        through BASIC, all element addresses of small arrays distinct.
+  Statements that fail after part of their work (ops 'merase', 'mdim', 'line'): ERASE lists of 1..4 names
+       mixing existing arrays, missing arrays, repeated names, names of scalars and text that cannot be parsed
+       (trailing comma, subscript, double comma); DIM lists where a later item fails (Duplicate definition,
+       negative / below-base bound, an array larger than any data segment); direct lines of several
+       statements where a later one fails (Overflow, Illegal function call, Subscript out of range, SWAP
+       Type mismatch, ERASE of a missing array, DIM of an existing one). The units are modelled one after the
+       other (class Comp): the units before the failing one have taken effect, the failing one and the rest
+       have not - GW-BASIC and PC-BASIC both run such lists while they parse them. Where that is not settled
+       the engine's choice is followed, but it must be a prefix of the units: a Syntax error behind the last
+       unit (the list could have been checked first), and Out of memory / Out of string space, whose failing
+       unit depends on memory; `partial-effect:*:state-is-no-prefix-of-the-units` otherwise. After a statement
+       that did part of its work every surviving variable gets the complete audit (read-back of everything,
+       VARPTR/PEEK/VARPTR$ of every scalar and of every element of the small arrays, disjointness, packing,
+       record headers), and the generator appends DIM of a new array + unique values in all its elements,
+       each followed by the same audit (op flag 'audit').
 A violation that leaves the reference model uncertain ends the run.
 """
 
@@ -51,6 +66,7 @@ NAME = 'mem'
 PROPS = ('C10', 'C11', 'C12')
 RULE = ('one evaluation = one simulated direct-mode history (12-55 ops quick, 40-400 thorough) of '
         'assignments, string functions, MID$/LSET/RSET, SWAP, DIM/ERASE/OPTION BASE, FIELD, DEF FN calls, '
+        'ERASE/DIM lists and multi-statement lines that fail after part of their work, '
         'CLEAR ,n,m and FRE under a per-run memory limit and a per-run forced-collection plan, with read-back '
         'of every variable after every op and VARPTR/PEEK sweeps; distinct = distinct (op kind, outcome, '
         'live-string bucket, model-free bucket, collections bucket, arrays bucket) tuples; non-trivial = at '
@@ -1232,6 +1248,18 @@ class Exec(object):
         for name in names:
             if name not in m.ar and d.get(b(name + '(')):
                 return False
+        for name in sorted(free):
+            if name in m.ar:
+                continue
+            got = d.get(b(name + '('))
+            if got:
+                # dimensioned by reference: 0/1..10 in every dimension, nothing assigned yet
+                sh = shape(got)
+                flat = got
+                for _ in sh[1:]:
+                    flat = [x for sub in flat for x in sub]
+                if sh != [11 - m.base] * len(sh) or any(x != (b'' if is_str(name) else 0) for x in flat):
+                    return False
         return True
 
     def do_compound(self, op):
